@@ -25,6 +25,21 @@ PROPS = {
                       'the justification tables rules/tables/c01_*.json (each entry re-checked by rule R1s/R1c where stated).',
         'technique': 'type-level trace-edge audit + typestate/liveness dataflow over resolved MIR (rustc_private driver)',
     },
+    'C16': {
+        'module': 'c16',
+        'explanation': 'Structural necessary conditions for reclamation over the MIR of memory.rs and the Vm: root counts are released '
+                       '(every Root construction increments, both Drop impls decrement, nothing forgets/leaks a Root), collection pacing '
+                       'lies on every allocation path and uses the configured threshold and growth factor, byte accounting uses the same '
+                       'unit on allocation and sweep, sweep drops exactly the non-black boxes, and every Root stored into a Vm-owned '
+                       'container by code reachable from Vm::run is bounded by a constant or retained by design.',
+        'assumptions': COMMON_ASSUME,
+        'not_decided': ['the quantitative bound (2x + one allocation): arithmetic over run-time byte counts',
+                        'that unreachable objects are actually unreferenced by roots at run time'],
+        'level_text': 'Decides the structural clauses G1-G4 for every path of the allocator/collector source; the numeric heap bound itself is not decided.',
+        'design_ref': 'DESIGN.md section 1, C16',
+        'level_note': 'Trusted: rustc front end + MIR, the extractor, rules/tables/c16_retained_by_design.json.',
+        'technique': 'pairing / must-pass-through / who-may-write rules over resolved MIR (rustc_private driver)',
+    },
 }
 
 NOT_APPLICABLE = {
